@@ -292,11 +292,11 @@ def eval_case(case, seed, thorough):
             # the same for QUIC: every bit of the invariant part of the long headers of the victim's first datagrams - first octet (form, fixed bit, type), the four
             # version octets (one flipped bit turns version 1 into version 0, a Version Negotiation packet, in the middle of a handshake), the DCID length and the first
             # DCID octet.  The datagrams that follow the damaged one find whatever state it left behind
-            longs = [i for i in vidx if items[i].seg.data and items[i].seg.data[0] & 0x80][:5 if thorough else 3]
+            longs = [i for i in vidx if items[i].seg.data and items[i].seg.data[0] & 0x80][:5 if thorough else 2]
             for i in longs:
                 for j in range(0, 7):
                     for bit in range(8):
-                        if not thorough and j not in (0, 4) and (bit + j + i) % 3:
+                        if not thorough and ((j not in (0, 4) and (bit + j + i) % 4) or (j == 0 and bit % 2)):
                             continue
                         newit = reframe(items[i], vep, lambda p_, j=j, bit=bit: p_[:j] + bytes([p_[j] ^ (1 << bit)]) + p_[j + 1:] if len(p_) > j else p_)
                         faults.append((f"bit {bit} of octet {j} of the long header of the victim's datagram {vidx.index(i)} flipped", items[:i] + [newit] + items[i + 1:], keys, [], "ab"))
